@@ -3,6 +3,7 @@
   `flatten`, elementwise maps (`mapCoords`), first/last element tests.  Nothing here mentions generated text.
 -/
 import CogentModel.Model.FeatureGenPrelude
+import CogentModel.Model.FeatureAdd
 import Mathlib.Tactic.SplitIfs
 namespace CogentModel.C04Gen
 open CogentModel.View CogentModel.FeatureView
@@ -67,5 +68,16 @@ theorem mapCoords_congr {f g : Int → Except FErr Int} (h : ∀ x, f x = g x) (
     mapCoords f xs = mapCoords g xs := by
   have : f = g := funext h
   rw [this]
+
+/-- the prelude's `sorted(rows)` is C17's `sortSpans` (same insertion sort on the same order) -/
+theorem sortRows_eq (l : List (Int × Int)) : sortRows l = AnnotDb.sortSpans l := by
+  induction l with
+  | nil => rfl
+  | cons p ps ih =>
+    simp only [sortRows, AnnotDb.sortSpans, ih]
+    generalize AnnotDb.sortSpans ps = m
+    induction m with
+    | nil => rfl
+    | cons q qs ih2 => simp only [insertRow, AnnotDb.insertSorted, rowLe, AnnotDb.pairLe, ih2]; rfl
 
 end CogentModel.C04Gen
